@@ -345,7 +345,18 @@ example : ∃ s0, State.new 4 2 2 = .ok s0 ∧
 
 end Sender
 
-/-! ## Part (c): `UnorderedReceiver` -/
+/-! ## Part (c): `UnorderedReceiver`
+
+Granularity: unlike `OrderingSender` (whose accesses to `next`, the waiting shards and the state
+mutex interleave *inside* a poll — see `Props/C14Atomic.lean`), **all** state of `UnorderedReceiver`
+(`next`, `spare`, `wakers`, `overflow_wakers` and the wrapped `stream` itself) lives in one
+`Arc<Mutex<OperatingState>>`; `Receiver::poll` takes that lock in its first statement
+(`let mut recv = this.shared_state.lock().unwrap();`) and holds the guard until it returns,
+including the poll of the underlying stream.  There are no atomics or other shared cells.  Hence two
+polls can never interleave: a poll IS an atomic step and the poll-level model below *is* the
+atomic-level model; "all interleavings" = all sequences of polls/feeds, which is what
+`receiver_indexing` / `receiver_wakeups` quantify over.  The structure this argument rests on is
+pinned by the translator items `buffers.atomic.receiver.*`. -/
 section Receiver
 open IpaVerif.UnorderedReceiver
 
